@@ -14,7 +14,11 @@ TRUSTED = [
     "harness crate etk-vh-analyze and python driver",
 ]
 
-KNOWN = "deep-block: a single basic block touching more than 65535 entry-stack slots (e.g. 10923 x log4, 10923 bytes) overflows the annotator's u16 variable counter (`*self.vars += 1`) and panics"
+def known_deep():
+    for f in common.load_known_findings():
+        if f["pid"] == "C15" and f["cls"] == "deep-block":
+            return f["cls"] + " " + f["text"]
+    return None
 
 
 def check(run):
@@ -37,11 +41,13 @@ def check(run):
     cases.append(("mulmod-symbolic", bytes.fromhex("09565b00")))
     cases.append(("signextend", bytes.fromhex("600360050b565b00")))
     reqs = [f"cfg {c.hex() or '-'} 1" for _, c in cases]
-    ans, complete = common.run_harness_parallel(reqs, analyze=True, timeout=900)
-    # the known finding, in its own process
+    # the known finding, in its own process, started first (the annotator is quadratic in the
+    # block length: about 3 minutes in a debug build)
+    from concurrent.futures import ThreadPoolExecutor
     deep = bytes([0xA4]) * 10923
-    one, rc1, raw1 = common.run_harness([f"cfg {deep.hex()} 1"], analyze=True, timeout=120)
-    deep_ans = one[0] if one else f"crash:rc={rc1}"
+    pool = ThreadPoolExecutor(max_workers=1)
+    deep_job = pool.submit(lambda: common.run_harness([f"cfg {deep.hex()} 1"], analyze=True, timeout=1500))
+    ans, complete = common.run_harness_parallel(reqs, analyze=True, timeout=900, nproc=14)
     # model: does the pipeline model panic?  (the initial graph is also compared)
     exprs = [f"run_pipeline_initial {coq_bytes(list(c))}" for _, c in cases]
     model, errors = common.coq_eval(IMPORTS, exprs, tag="c15", timeout=900)
@@ -70,10 +76,17 @@ def check(run):
             bad_case = bad_case or dict(code=c.hex(), impl_nodes=labels, impl_edges=edges, model=m[:600])
         if len(run.samples) < 4:
             run.samples.append(dict(code=c.hex(), position=k, model_initial=m[:200], impl_refined_edges=len(edges)))
+    one, rc1, raw1 = deep_job.result()
+    pool.shutdown()
+    deep_ans = one[0] if one else f"crash:rc={rc1}"
     if deep_ans.startswith("ok:"):
         run.notes.append("the deep-block input no longer panics: the known finding may be fixed")
-    elif "overflow" in deep_ans or deep_ans.startswith(("panic", "crash")):
-        run.known_finding(KNOWN)
+    elif known_deep() and "overflow" in deep_ans:
+        run.known_finding(known_deep())
+    else:
+        found += 1
+        run.violation(dict(property="C15", code="a4 x 10923", position="one block of 10923 log4", outcome=deep_ans[:300],
+                           replay="python3 -c \"print('cfg '+'a4'*10923+' 1')\" | .cache/target/debug/etk-vh-analyze"))
     run.corr["distinct"] = len(set(c for _, c in cases))
     run.corr["disagreements"] = dis
     run.corr["rule"] = ("every opcode byte alone / first / middle / last in a block, feeding a jump target, feeding a branch condition, and on the entry stack; structured multi-block programs; random byte strings incl. truncated pushes; exp, mulmod, signextend in exit expressions; "
